@@ -1539,56 +1539,72 @@ func (e *Engine) hoistCalls(st *State, body ast.Expr, bound map[types.Object]Val
 		})
 		return found
 	}
-	var walk func(x ast.Node, inOld bool)
-	walk = func(x ast.Node, inOld bool) {
+	// hoist maximal bound-variable-free sub-expressions that touch the heap or call something
+	hoistableNode := func(n ast.Node) (ast.Expr, bool) {
+		switch x := n.(type) {
+		case *ast.CallExpr:
+			if e.hoistable(x) {
+				return x, true
+			}
+		case *ast.SelectorExpr:
+			if sel := e.pkg.info.Selections[x]; sel != nil && sel.Kind() == types.FieldVal {
+				return x, true
+			}
+		case *ast.IndexExpr:
+			if tv, ok := e.pkg.info.Types[x.X]; ok && !tv.IsType() {
+				if _, isMap := under(tv.Type).(*types.Map); !isMap {
+					return x, true
+				}
+			}
+		case *ast.StarExpr:
+			return x, true
+		}
+		return nil, false
+	}
+	var walkIn func(x ast.Node, state *State)
+	walkIn = func(x ast.Node, state *State) {
 		ast.Inspect(x, func(n ast.Node) bool {
-			call, ok := n.(*ast.CallExpr)
-			if !ok {
+			if n == nil {
 				return true
 			}
 			if _, ok := n.(*ast.FuncLit); ok {
 				return false
 			}
-			if id, ok := call.Fun.(*ast.Ident); ok {
-				if f, ok := e.pkg.info.Uses[id].(*types.Func); ok && f.Pkg() == nil {
-					switch id.Name {
-					case "old":
-						if e.oldState != nil {
-							// hoist inside old() against the old state
-							ast.Inspect(call.Args[0], func(m ast.Node) bool {
-								if c2, ok := m.(*ast.CallExpr); ok && e.hoistable(c2) && !mentionsBound(c2) {
-									if _, done := e.hoisted[c2]; !done {
-										e.hoisted[c2] = e.eval(e.oldState, c2)
-									}
-									return false
-								}
-								return true
-							})
+			if call, ok := n.(*ast.CallExpr); ok {
+				if id, ok := call.Fun.(*ast.Ident); ok {
+					if f, ok := e.pkg.info.Uses[id].(*types.Func); ok && f.Pkg() == nil {
+						switch id.Name {
+						case "old":
+							if e.oldState != nil {
+								walkIn(call.Args[0], e.oldState)
+								return false
+							}
+							return true
+						case "cur":
+							if e.clauseState != nil {
+								walkIn(call.Args[0], e.clauseState)
+								return false
+							}
+							return true
+						case "forall", "exists":
 							return false
 						}
-						return true
-					case "forall", "exists":
-						return false // nested quantifiers hoist on their own
 					}
-					if e.hoistable(call) && !mentionsBound(call) {
-						if _, done := e.hoisted[call]; !done {
-							e.hoisted[call] = e.eval(st, call)
-						}
-						return false
-					}
-					return true
 				}
 			}
-			if e.hoistable(call) && !mentionsBound(call) {
-				if _, done := e.hoisted[call]; !done {
-					e.hoisted[call] = e.eval(st, call)
+			if hx, ok := hoistableNode(n); ok && !mentionsBound(hx) {
+				if e.constOf(hx) != nil {
+					return false
+				}
+				if _, done := e.hoisted[hx]; !done {
+					e.hoisted[hx] = e.eval(state, hx)
 				}
 				return false
 			}
 			return true
 		})
 	}
-	walk(body, false)
+	walkIn(body, st)
 }
 
 func (e *Engine) isQuantVar(o types.Object) bool { return e.quantVars[o] }
